@@ -169,7 +169,9 @@ class _ZkProve(_Backend):
 
     def configs(self, tier):
         shapes = [dict(npub=0, npriv=0, cons=[]),
-                  dict(npub=1, npriv=2, cons=[[(-1,), (-2,), (1, 0)], [(-1,), (-2,), (0,)]])]     # second: C is a bare constant with any coefficient
+                  dict(npub=1, npriv=2, cons=[[(-1,), (-2,), (1, 0)], [(-1,), (-2,), (0,)]]),     # second: C is a bare constant with any coefficient
+                  dict(npub=2, npriv=0, cons=[[(), (), (1, 2, 0)]]),                                # public values only: no private variable at all
+                  dict(npub=1, npriv=1, cons=[[(), (), ()], [(0,), (-1,), (1,)]])]                  # a row without a single term
         if tier != "quick":
             shapes.append(dict(npub=2, npriv=2, cons=[[(-1, 1), (-2,), (2, 0)], [(), (0,), (-1,)]]))
         return [dict(shape=repr(s)) for s in shapes]
